@@ -83,6 +83,7 @@ class SysAdapter(Adapter):
 
     def __init__(self, seed, do_solves=True):
         self.rng = random.Random(seed)
+        self.seed = seed
         self.ref = {}          # cfg key -> reference g(r) of a freshly built System
         self.do_solves = do_solves
         self.solves = 0
@@ -91,14 +92,26 @@ class SysAdapter(Adapter):
     def new(self, state):
         import pyPRISM
         s = pyPRISM.System(list(T))       # kT has a default (1.0) = version 1
-        w = {'sys': s, 'prisms': [], 'results': []}
+        w = {'sys': s, 'prisms': [], 'results': [], 'init': state, 'hist': []}
         for item, v in sorted(state['cfg'].items()):
             if v and item != 'kT':
                 self.edit(w, item, v)
         return w
 
     def clone(self, w):
-        return copy.deepcopy(w)
+        """A deep copy of (System, PRISM objects) turns numpy VIEWS into independent arrays and so would hide any memory a
+        PRISM object shares with the System it was created from - the very thing SnapshotFrozen is about.  Histories are
+        short and deterministic: rebuild the world by re-running them on fresh objects."""
+        c = self.new(w['init'])
+        for l in w['hist']:
+            self._step(c, l)
+            c['hist'].append(l)
+        return c
+
+    def coin(self, w, *key):
+        """deterministic coin per (history position, key): the re-run of a history takes the same decisions"""
+        import zlib
+        return zlib.crc32(repr((self.seed, len(w['hist']), key)).encode()) & 1
 
     def edit(self, w, item, v):
         import pyPRISM
@@ -108,7 +121,7 @@ class SysAdapter(Adapter):
             s.kT = VERS['kT'][v]
         elif item == 'domain':
             n, dr = DOMAINS[v]
-            if s.domain is not None and self.rng.random() < 0.5:
+            if s.domain is not None and self.coin(w, 'domain', v):
                 s.domain.length = n          # in-place reconfiguration of the existing Domain
                 s.domain.dr = dr
             else:
@@ -119,7 +132,7 @@ class SysAdapter(Adapter):
             s.diameter[which] = VERS[item][v]
         else:
             a, b = PAIRKEY[which]
-            if self.rng.random() < 0.5:
+            if self.coin(w, item, v):
                 a, b = b, a
             if kind == 'pot':
                 s.potential[a, b] = systems.make_potential(VERS[item][v])
@@ -134,6 +147,11 @@ class SysAdapter(Adapter):
                     s.omega[a, b] = systems.make_omega(spec)
 
     def step(self, w, l):
+        obs = self._step(w, l)
+        w['hist'].append(l)
+        return obs
+
+    def _step(self, w, l):
         act = l['act']
         s = w['sys']
         obs = {'raises': ''}
